@@ -192,6 +192,9 @@ def check_point_route(run, rule='R22'):
     x = matches('_X.dual.v', ret.value)['_X']
     if isinstance(x, ast.Name) and x.id in defs:
         x = defs[x.id].value
+    # named intermediate products (partial = left * Pure(v); vp = partial * conjugate) are put back in place
+    from ..cfg import pure_locals, _subst_pure
+    x = _subst_pure(x, pure_locals(f.node))
     try:
         ev = DQEval(prog, left)
         real, dual = ev.dq(canon(fi, x, inline=False))
